@@ -59,9 +59,28 @@ type helloCase struct {
 // the first ClientHello handshake message), hsraw (HandshakeState.Hello.Raw after the attempt), builderr}
 func init() {
 	hlib.Register("hellos", func(in []byte, out *hlib.Out) error {
-		var req struct{ Cases []helloCase }
+		var req struct {
+			Cases []helloCase
+			// PreFP: before anything else, a hello of each of these parrots is built and fingerprinted in this very
+			// process (fingerprinting must not change what later connections of any parrot send)
+			PreFP []string `json:"pre_fp"`
+		}
 		if err := json.Unmarshal(in, &req); err != nil {
 			return err
+		}
+		for _, name := range req.PreFP {
+			id0, err := hlib.LookupID(name)
+			if err != nil {
+				continue
+			}
+			for k := 0; k < 8; k++ {
+				c0, _ := hlib.BufPipe()
+				u0 := tls.UClient(c0, &tls.Config{ServerName: "fingerprinted.example", OmitEmptyPsk: true}, id0)
+				if err := u0.BuildHandshakeState(); err == nil {
+					raw := u0.HandshakeState.Hello.Raw
+					(&tls.Fingerprinter{}).FingerprintClientHello(append([]byte{22, 3, 1, byte(len(raw) >> 8), byte(len(raw))}, raw...))
+				}
+			}
 		}
 		type job struct {
 			c helloCase
